@@ -50,3 +50,6 @@ Definition verdict_code (v : verdict) : list Z :=
 (* cycles: [verdict; len(path); wf] ++ structure *)
 Definition k_cyc (g : netlist) : list Z :=
   verdict_code (check_cycles g) ++ [b2l (wf_netlist g && top_first g)] ++ struct_cells (cells g) 0.
+
+(* design-level oracle: 1 iff some signal bit of the design depends on itself *)
+Definition k_gt (sts : list cstmt) : list Z := [b2l (design_cyclicb sts)].
